@@ -76,7 +76,7 @@ def validate(traces, scratch, nproc=None, chunk=400, timeout=1800):
             # the monitor is meant to be total; if a (grossly malformed) trace still breaks its evaluation, isolate that
             # trace instead of giving up on the whole run: it gets the pseudo clause H.monitor_error
             if len(ch) == 1:
-                if "evaluating" in res.out or "Attempted to" in res.out:
+                if ("evaluating" in res.out or "Attempted to" in res.out) and " in Obs" in res.out and "JsonException" not in res.out:
                     return [(ch[0]["id"], ["0:H.monitor_error"])], res.distinct
                 raise MachineryError("TraceObs run failed rc=%s:\n%s" % (res.rc, res.out[-3000:]))
             mid = len(ch) // 2
